@@ -10,7 +10,8 @@ LEVEL = "exploration"
 RULE = ("(key, message) pairs: keys of 8..56 bytes (random, all-equal bytes, only-first-8-differ, only-tail-differs), "
         "messages of 0..4096 bytes (every length 0..64, block edges, random); library ciphertext compared with the "
         "pi-derived reference keyed with the first 8 key bytes, decrypt(encrypt(m)) compared with the zero-padded message; "
-        "16 published ECB vectors pushed through the library with word-order conversion. "
+        "16 published ECB vectors pushed through the library with word-order conversion; several messages of falling and rising length through one object; "
+        "successive objects with related keys (equal halves, one differing bit, the same key again). "
         "non-trivial = message of >= 1 byte; distinct = digest of (key, message)")
 ASSUMPTIONS = ["Reference Blowfish derived from pi digits reproduces the 16 published ECB vectors (checked at import)"]
 
@@ -42,6 +43,18 @@ def shard(ctx):
         mm = rng.random()
         msg = rng.randbytes(ml) if mm < 0.8 else bytes([rng.choice([0, 0xFF, 0x80])]) * ml
         cases.append((key, msg, "rand"))
+    # several messages through ONE object, lengths going down and up (an unaligned message after a longer one must still be zero-padded)
+    for _ in range(max(2, P["n"] // 40)):
+        key = rng.randbytes(rng.choice([8, 8, 16, 56]))
+        lens = [rng.choice([64, 100, 1000, 33]), rng.choice([1, 3, 5, 7, 9, 13]), rng.choice([17, 31, 2]), 0, rng.choice([4095, 12, 6]), rng.choice([1, 2, 3])]
+        for j, ml in enumerate(lens):
+            cases.append((key, rng.randbytes(ml) if rng.random() < 0.5 else bytes([0xFF]) * ml, "reuse", j > 0))
+    # successive objects with related keys (equal halves, one differing byte, the same key again): no state may leak from one into the next
+    for _ in range(max(2, P["n"] // 40)):
+        k0 = rng.randbytes(8)
+        rel = [k0, k0[:4] + rng.randbytes(4), rng.randbytes(4) + k0[4:], k0, bytes([k0[0] ^ 1]) + k0[1:], k0[:7] + bytes([k0[7] ^ 0x80]), k0[::-1], k0]
+        for k in rel:
+            cases.append((k + (rng.randbytes(rng.choice([0, 0, 8])) if rng.random() < 0.3 else b""), rng.randbytes(rng.choice([8, 16, 5])), "related-keys"))
     # tail of a long key must be insignificant: same first 8 bytes, different tails
     base = rng.randbytes(8)
     for _ in range(4):
@@ -50,7 +63,8 @@ def shard(ctx):
         for k, p, c in bf.VECTORS:
             pl = b"".join(struct.pack("<I", x) for x in struct.unpack(">II", bytes.fromhex(p)))
             cases.append((bytes.fromhex(k), pl, "vector:" + c))
-    inp = ctx.write("bf.in", ("\n".join(k.hex() + " " + m.hex() for k, m, _ in cases) + "\n").encode())
+    cases = [c if len(c) == 4 else c + (False,) for c in cases]
+    inp = ctx.write("bf.in", ("\n".join(("=" if same else k.hex()) + " " + m.hex() for k, m, _, same in cases) + "\n").encode())
     out = ctx.path("bf.out")
     sz = os.path.getsize(inp)
     rec = ctx.call("bf.batch", inp, out, input_bytes=sz)
@@ -59,7 +73,7 @@ def shard(ctx):
         return
     lines = ctx.read("bf.out").decode().split("\n")
     cache = {}
-    for (key, msg, kind), l in zip(cases, lines):
+    for (key, msg, kind, same), l in zip(cases, lines):
         parts = l.split(" ")
         if len(parts) != 2 or not parts[0].startswith("h") or not parts[1].startswith("h"):
             ctx.violation("blowfish", dict(sub="returned_none"), dict(key=key.hex(), msg=msg.hex()[:200], line=l[:100]), files=[inp])
